@@ -344,6 +344,8 @@ type e2eCfg struct {
 	serial                                                              int
 	firmware                                                            string
 	model                                                               string
+	brand                                                               string
+	unknownCam                                                          bool
 }
 
 func b2s(x int) string {
@@ -536,6 +538,17 @@ func genE2E(r *vRng, tier string, w *bufio.Writer) {
 			if conn > 0 {
 				fmt.Fprintln(w, "n")
 			}
+			if id%24 == 11 && conn == nconn-1 && cc.lepton == 0 {
+				cc.unknownCam = true
+				switch r.intn(3) {
+				case 0:
+					cc.brand = "acme"
+				case 1:
+					cc.model = "lepton2"
+				default:
+					cc.model = "Boson"
+				}
+			}
 			if conn == 0 && id%4 == 1 && cc.fps <= 3 && cc.lepton == 0 {
 				cc.tickBad = 15 * cc.fps
 			}
@@ -554,11 +567,20 @@ func genE2EConn(r *vRng, c e2eCfg, w *bufio.Writer, last bool) {
 	if c.lepton == 1 {
 		fsize = lepton3.BytesPerFrame
 	}
+	brand := "flir"
+	if c.brand != "" {
+		brand = c.brand
+	}
 	hdrMap := map[string]interface{}{"ResX": c.w, "ResY": c.h, "FrameSize": fsize, "Model": c.model,
-		"Brand": "flir", "FPS": c.fps, "CameraSerial": c.serial, "Firmware": c.firmware}
+		"Brand": brand, "FPS": c.fps, "CameraSerial": c.serial, "Firmware": c.firmware}
 	hdr, _ := yaml.Marshal(hdrMap)
 	stream := append([]byte{}, hdr...)
 	stream = append(stream, '\n')
+	if c.unknownCam {
+		// a camera the recorder has no frame parser for: the connection is refused after the header, nothing is recorded
+		fmt.Fprintf(w, "b 0 %s\n", hex.EncodeToString(stream))
+		return
+	}
 	type seg struct {
 		data  []byte
 		valid int
